@@ -181,6 +181,11 @@ def validate_trace_file(path, cfg="WalTrace.cfg", module="WalTrace.tla", timeout
         elif line.startswith('"UNMATCHED|'):
             raise ToolError("trace spec could not match a line: %s in %s" % (line, path))
     if accepted is None:
+        if viols:
+            # the trace specification stopped evaluating AFTER its monitors had reported violations (its model of
+            # the log had parted from the code under test): the verdicts stand, the rest of the file is not judged
+            log("NOTE: trace specification stopped after %d violation(s) in %s (rest of the file not judged)" % (len(viols), path))
+            return viols, drifts, max(v["line"] for v in viols)
         raise ToolError("TLC failed on trace %s:\n%s" % (path, out[-4000:]))
     return viols, drifts, accepted
 
